@@ -406,24 +406,36 @@ func Gt(a, b *Term) *Term { return intCmp(">", a, b) }
 func Ge(a, b *Term) *Term { return intCmp(">=", a, b) }
 
 // Select with store/const simplification on syntactically decidable indices.
+// termDefs maps the name of an introduced constant to its defining term, so
+// that Select can look through named heap states.  Reset per function.
+var termDefs = map[string]*Term{}
+
 func Select(arr, idx *Term) *Term {
 	_, es := arr.Sort.ArrayParts()
+	orig := arr
 	for {
-		if arr.Op == "store" && len(arr.Args) == 3 {
-			if arr.Args[1].String() == idx.String() {
-				return arr.Args[2]
+		cur := arr
+		if len(cur.Args) == 0 {
+			if d, ok := termDefs[cur.Op]; ok {
+				cur = d
 			}
-			if definitelyDistinct(arr.Args[1], idx) {
-				arr = arr.Args[0]
+		}
+		if cur.Op == "store" && len(cur.Args) == 3 {
+			if cur.Args[1].String() == idx.String() {
+				return cur.Args[2]
+			}
+			if definitelyDistinct(cur.Args[1], idx) {
+				arr = cur.Args[0]
+				orig = arr
 				continue
 			}
 		}
+		if len(cur.Args) == 1 && strings.HasPrefix(cur.Op, "(as const ") {
+			return cur.Args[0]
+		}
 		break
 	}
-	if len(arr.Args) == 1 && strings.HasPrefix(arr.Op, "(as const ") {
-		return arr.Args[0]
-	}
-	return App("select", es, arr, idx)
+	return App("select", es, orig, idx)
 }
 
 func definitelyDistinct(a, b *Term) bool {
@@ -743,18 +755,85 @@ func replaceTerm(t *Term, from string, to *Term) *Term {
 
 var quantCtr int
 
+// collectIndexTerms gathers the distinct select index terms mentioning name.
+func collectIndexTerms(t *Term, name string, seen map[string]bool, out *[]*Term) {
+	if t.Op == "select" && len(t.Args) == 2 && t.Args[1].Sort == SInt && mentions(t.Args[1], name) {
+		k := t.Args[1].String()
+		if !seen[k] {
+			seen[k] = true
+			*out = append(*out, t.Args[1])
+		}
+	}
+	for _, a := range t.Args {
+		collectIndexTerms(a, name, seen, out)
+	}
+}
+
 // MkQuant builds a quantifier, normalising relative indices to absolute ones.
+// When the bound variable indexes several arrays at different offsets, the
+// result is the conjunction of the (equivalent) variants normalised for each,
+// so that every array provides a trigger.
 func MkQuant(op string, bound []*Term, body *Term) *Term {
 	if body.IsTrue() || body.IsFalse() {
 		return body
 	}
+	if len(bound) == 1 && bound[0].Sort == SInt && op == "forall" {
+		var idxs []*Term
+		collectIndexTerms(body, bound[0].Op, map[string]bool{}, &idxs)
+		var usable []*Term
+		for _, ix := range idxs {
+			lin := linearize(ix)
+			if c, ok := lin.coef[bound[0].Op]; ok && c.Cmp(big.NewInt(1)) == 0 && !mentions(lin.without(bound[0].Op), bound[0].Op) {
+				usable = append(usable, ix)
+			}
+		}
+		if len(usable) > 1 {
+			if len(usable) > 3 {
+				usable = usable[:3]
+			}
+			var variants []*Term
+			for _, ix := range usable {
+				variants = append(variants, mkQuantFor(op, bound, body, ix))
+			}
+			return And(variants...)
+		}
+	}
+	return mkQuant1(op, bound, body)
+}
+
+// mkQuantFor normalises the single bound variable with respect to index term ix.
+func mkQuantFor(op string, bound []*Term, body *Term, ix *Term) *Term {
+	b := bound[0]
+	if len(ix.Args) == 0 {
+		return &Term{Op: op, Sort: SBool, Bound: bound, Args: []*Term{body}}
+	}
+	lin := linearize(ix)
+	base := lin.without(b.Op)
+	quantCtr++
+	a := Atom(fmt.Sprintf("a!%d", quantCtr), SInt)
+	nb := replaceTerm(body, ix.String(), a)
+	nb = Subst(nb, map[string]*Term{b.Op: Sub(a, base)})
+	return &Term{Op: op, Sort: SBool, Bound: []*Term{a}, Args: []*Term{nb}}
+}
+
+func mkQuant1(op string, bound []*Term, body *Term) *Term {
 	nb := make([]*Term, len(bound))
 	copy(nb, bound)
 	for i, b := range nb {
 		if b.Sort != SInt {
 			continue
 		}
-		// bare use A[j] somewhere: already in the good form
+		var idxs []*Term
+		collectIndexTerms(body, b.Op, map[string]bool{}, &idxs)
+		bare := false
+		for _, ix := range idxs {
+			if len(ix.Args) == 0 {
+				bare = true
+			}
+		}
+		if bare {
+			continue // A[j] occurs: already a usable trigger
+		}
 		idx := findIndexWith(body, b.Op)
 		if idx == nil {
 			continue
